@@ -93,7 +93,18 @@ def check_script(script, source, emit, case, run_kw=None):
             so = sorted((shape(x) for x in orig_defs), key=repr)
             sn = sorted((shape(x) for x in reparsed), key=repr)
             if so != sn:
-                problems.append(("definition-ast-differs", first_diff(tuple(so), tuple(sn)) or "differs"))
+                import copy
+
+                def unordered(x):
+                    if type(x).__name__ != "HRuleset":
+                        return repr(shape(x))
+                    y = copy.deepcopy(x)
+                    y.rules = sorted(y.rules, key=lambda r: repr(shape(r)))
+                    return repr(shape(y))
+                uo = sorted(unordered(x) for x in orig_defs)
+                un = sorted(unordered(x) for x in reparsed)
+                kind = "hruleset-rule-order-not-stable" if uo == un else "definition-ast-differs"
+                problems.append((kind, first_diff(tuple(so), tuple(sn)) or "differs"))
     # each transformation's expression re-parses to the original right-hand side
     if not problems:
         by_name = {c.left.value: shape(c.right) for c in a0.children if isinstance(c, (AST.Assignment, AST.PersistentAssignment))}
@@ -101,7 +112,10 @@ def check_script(script, source, emit, case, run_kw=None):
             o = by_name.get(t.result)
             se, ae = eng.call(create_ast, f"x := {t.expression};")
             if se == "exc":
-                problems.append(("expression-does-not-reparse", f"{t.expression[:120]!r}"))
+                kind = "expression-does-not-reparse"
+                if re.search(r"group (by|except)[^\]]*,\s*time_agg\(", t.expression) and not re.search(r"group (by|except)[^\]]*,\s*time_agg\(", script):
+                    kind += "/comma-inserted-before-time_agg-in-group-clause"
+                problems.append((kind, f"{t.expression[:120]!r}"))
                 break
             if shape(ae.children[0].right) != o:
                 problems.append(("expression-ast-differs", first_diff(o, shape(ae.children[0].right)) or t.expression[:100]))
